@@ -260,12 +260,21 @@ func runC20(c *Ctx) {
 					if loopOf(a.Block()) == nil {
 						okAll = false
 						detail = "snapshot append outside the range loop"
+					} else if unc, at := unconditionalInLoop(a); !unc {
+						okAll = false
+						detail = "the snapshot append is conditional inside the range loop"
+						if at != nil {
+							detail += " (branch at " + p.InstrPos(lastInstr(at)) + "): some graphs are left out of the snapshot and never reopened"
+						}
 					}
 				}
 				if okAll {
 					if full, why := c.fullLoop(gre, true); !full {
 						okAll = false
 						detail = "the loop over the snapshot: " + why
+					} else if unc, _ := unconditionalInLoop(gre); !unc {
+						okAll = false
+						detail = "reopen is applied to the snapshot's elements only under an extra condition"
 					} else {
 						detail = "snapshot slice filled by a full range over b.graphs (under the read lock), reopen applied to every element of a full loop over the snapshot"
 					}
